@@ -134,6 +134,17 @@ def audit(prop: str) -> dict:
     return {"theorems": thms, "bad": bad, "log": log, "wanted": wanted}
 
 
+def _die_with_parent():
+    """PR_SET_PDEATHSIG: a driver must not outlive a harness process that was killed (orphaned model
+    drivers spinning for hours were observed when a check was interrupted)."""
+    try:
+        import ctypes
+        import signal
+        ctypes.CDLL("libc.so.6", use_errno=True).prctl(1, signal.SIGKILL)
+    except Exception:
+        pass
+
+
 class Driver:
     """One compiled (or interpreted) model driver; batch mode: lines in, lines out."""
 
@@ -162,7 +173,7 @@ class Driver:
             if not part:
                 continue
             p = subprocess.Popen(self.cmd(), cwd=LEAN, stdin=subprocess.PIPE, stdout=subprocess.PIPE,
-                                 stderr=subprocess.PIPE, text=True)
+                                 stderr=subprocess.PIPE, text=True, preexec_fn=_die_with_parent)
             procs.append((p, part))
         # feed all, then collect (communicate handles the pipes per process; run sequentially
         # per process but processes themselves run concurrently because stdin is written first
